@@ -344,8 +344,19 @@ impl<'b, 'a> Parser<'a, 'b> {
     ///
     /// In practice this is useful when missing things like semis or braces.
     pub(crate) fn err_before_ws(&mut self, error: impl Into<String>) {
-        let pos = self.buf[0].start_pos;
-        self.raw_error(pos..pos + 1, error);
+        let range = self.char_range_at(self.buf[0].start_pos);
+        self.raw_error(range, error);
+    }
+
+    /// The range of the character at `pos`; empty at the end of the input.
+    fn char_range_at(&self, pos: usize) -> Range<usize> {
+        let len = self
+            .text
+            .get(pos..)
+            .and_then(|rest| rest.chars().next())
+            .map(char::len_utf8)
+            .unwrap_or(0);
+        pos..pos + len
     }
 
     /// Write a *warning* before the whitespace of the associated token.
@@ -353,8 +364,8 @@ impl<'b, 'a> Parser<'a, 'b> {
     /// This only exists so we can warn if a semi is missing after an include
     /// statement (which is common in the wild)
     pub(crate) fn warn_before_ws(&mut self, error: impl Into<String>) {
-        let pos = self.buf[0].start_pos;
-        let diagnostic = Diagnostic::warning(FileId::CURRENT_FILE, pos..pos + 1, error);
+        let range = self.char_range_at(self.buf[0].start_pos);
+        let diagnostic = Diagnostic::warning(FileId::CURRENT_FILE, range, error);
         self.sink.error(diagnostic);
     }
 
